@@ -2,6 +2,8 @@ package main
 
 import (
 	"go/ast"
+	"sort"
+	"strings"
 )
 
 // regenerated facts of the "receive" family (C22 C23 C24 C25 C26)
@@ -85,6 +87,109 @@ func factsReceive() {
 	emitStr("failureThresholdExpr", "pkg/receive/handler.go fanoutForward: definition of failureThreshold", ft)
 	emitStr("canReturnEarlyCond", "pkg/receive/handler.go canReturnEarly: the test that keeps the loop waiting",
 		firstIfCond(body(fn(f, "", "canReturnEarly")), "successThreshold"))
+
+	// C26: where the symbol table of a v2 request is indexed, and the bounds test in front of it
+	var idxFuncs []string
+	boundCheck := "unknown"
+	if f != nil {
+		for _, d := range f.Decls {
+			fd, ok := d.(*ast.FuncDecl)
+			if !ok || fd.Body == nil {
+				continue
+			}
+			indexes := false
+			ast.Inspect(fd.Body, func(n ast.Node) bool {
+				if ix, ok := n.(*ast.IndexExpr); ok {
+					x := text(ix.X)
+					if x == "symbols" || strings.HasSuffix(x, ".Symbols") {
+						indexes = true
+					}
+				}
+				return true
+			})
+			if indexes {
+				idxFuncs = append(idxFuncs, fd.Name.Name)
+				if c := firstIfCond(fd.Body, "len(symbols)"); c != "unknown" {
+					boundCheck = c
+				} else if c := firstIfCond(fd.Body, "len(w.Symbols)"); c != "unknown" {
+					boundCheck = c
+				}
+			}
+		}
+	}
+	emitList("v2SymbolIndexFuncs", "pkg/receive/handler.go: functions that index the symbol table of a remote-write 2.0 request", idxFuncs)
+	emitStr("v2SymbolBoundCheck", "pkg/receive/handler.go: the bounds test in the function that indexes the symbol table", boundCheck)
+
+	// C26: every field of the v1 messages is assigned by translateV2ToV1
+	tr := fn(f, "", "translateV2ToV1")
+	assigned := map[string]bool{}
+	varType := map[string]string{"v1Ts": "TimeSeries", "v1Histogram": "Histogram", "v1Exemplar": "Exemplar"}
+	if tr != nil && tr.Body != nil {
+		scan := func(b ast.Node) {
+			ast.Inspect(b, func(n ast.Node) bool {
+				switch x := n.(type) {
+				case *ast.CompositeLit:
+					t := text(x.Type)
+					if strings.HasPrefix(t, "prompb.") {
+						for _, e := range x.Elts {
+							if kv, ok := e.(*ast.KeyValueExpr); ok {
+								assigned[strings.TrimPrefix(t, "prompb.")+"."+text(kv.Key)] = true
+							}
+						}
+					}
+				case *ast.AssignStmt:
+					for _, l := range x.Lhs {
+						if sel, ok := l.(*ast.SelectorExpr); ok {
+							if ty, ok := varType[text(sel.X)]; ok {
+								assigned[ty+"."+sel.Sel.Name] = true
+							}
+						}
+					}
+				}
+				return true
+			})
+		}
+		scan(tr.Body)
+		if sp := fn(f, "", "translateV2SpansToV1"); sp != nil && sp.Body != nil {
+			scan(sp.Body)
+		}
+	}
+	var as []string
+	for k := range assigned {
+		as = append(as, k)
+	}
+	sort.Strings(as)
+	emitList("v2TranslateAssigned", "pkg/receive/handler.go translateV2ToV1 / translateV2SpansToV1: v1 fields that are assigned", as)
+	pb := parse("pkg/store/storepb/prompb/types.pb.go")
+	var fields []string
+	if pb != nil {
+		want := map[string]bool{"Sample": true, "Exemplar": true, "Histogram": true, "BucketSpan": true, "TimeSeries": true}
+		for _, d := range pb.Decls {
+			gd, ok := d.(*ast.GenDecl)
+			if !ok {
+				continue
+			}
+			for _, sp := range gd.Specs {
+				ts, ok := sp.(*ast.TypeSpec)
+				if !ok || !want[ts.Name.Name] {
+					continue
+				}
+				st, ok := ts.Type.(*ast.StructType)
+				if !ok {
+					continue
+				}
+				for _, fl := range st.Fields.List {
+					for _, nm := range fl.Names {
+						if !strings.HasPrefix(nm.Name, "XXX_") {
+							fields = append(fields, ts.Name.Name+"."+nm.Name)
+						}
+					}
+				}
+			}
+		}
+	}
+	sort.Strings(fields)
+	emitList("v1MessageFields", "pkg/store/storepb/prompb/types.pb.go: fields of Sample, Exemplar, Histogram, BucketSpan, TimeSeries", fields)
 
 	// C24: order of Start / deferred Done / error check in the two HTTP entry points
 	emitList("receiveHTTPGate", "pkg/receive/handler.go receiveHTTP: gate skeleton", gateSkeleton(fn(f, "Handler", "receiveHTTP")))
